@@ -990,6 +990,12 @@ class Translator:
         else:
             _bad(s, "for over a list of this element kind")
         h0 = copy.deepcopy(h2)
+        fresh_locals = {n.id for st in s.body for n in ast.walk(st)
+                        if isinstance(n, ast.Name) and isinstance(n.ctx, ast.Store) and n.id not in env2}
+        for n in ast.walk(fn):
+            if isinstance(n, ast.Name) and isinstance(n.ctx, ast.Load) and n.id in fresh_locals \
+                    and getattr(n, "lineno", 0) > s.end_lineno:
+                _bad(s, f"local {n.id} of a loop is read after the loop")
         try:
             body = self.block(s.body, dict(env2), h2, lambda v, h: ("ret", v, h), lambda e, h: ("next", e, h), fn)
         except PathRaise:
@@ -1012,7 +1018,9 @@ class Translator:
             elif t[0] == "next":
                 if t[2] != h0:
                     _bad(s, "loop body stores an attribute")
-                if set(t[1]) - {var} != set(env2) - {var} or any(t[1][n] != env2[n] for n in env2 if n != var):
+                # locals first assigned inside the body live for one iteration (they may not be read after the loop)
+                if any(n not in env2 and n not in fresh_locals for n in t[1]) \
+                        or any(t[1].get(n) != env2[n] for n in env2 if n != var):
                     _bad(s, "loop body assigns a local variable")
             else:
                 _bad(s, "loop body can raise or loops")
